@@ -25,7 +25,7 @@ def run(ctx):
     ctx.do(P.rule_s2)
     ctx.do(P.rule_s3)
     ctx.do(P.rule_p1)
-    ctx.do(CA.rule_c2, "ProjectiveObject")
+    ctx.do(CA.rule_c2, "ProjectiveObject", scope=ctx.scope(ENTRIES))
     ctx.do(SH.rule_sh3)
     ctx.do(SI.rule_s1c)
     ctx.do(SI.rule_gi1)
